@@ -224,7 +224,7 @@ func (fr *frame) builtin(b *ssa.Builtin, cc *ssa.CallCommon, args []T, st *State
 		// copy(dst, src): havoc dst elements
 		if sl, ok := under(cc.Args[0].Type()).(*types.Slice); ok {
 			if _, isStruct := under(sl.Elem()).(*types.Struct); !isStruct {
-				c.havocHeap(st, c.R.CellHeap(c.R.SortOf(sl.Elem())))
+				c.havocHeap(st, c.R.CellHeapT(sl.Elem()))
 			} else {
 				c.havocAll(st)
 			}
@@ -334,7 +334,7 @@ func (fr *frame) doAppend(cc *ssa.CallCommon, args []T, st *State) T {
 			c.havocAll(st)
 			return resN
 		}
-		hn := c.R.CellHeap(c.R.SortOf(lf.typ))
+		hn := c.R.CellHeapT(lf.typ)
 		h := c.getHeap(st, hn)
 		jv := T{"j", "Int"}
 		// prefix copy when a new array is allocated: r is fresh, so its cells in
